@@ -74,10 +74,8 @@ class FeatureIdStorage:
         if feature_tuple not in self.id_dict:
             feature_id = self.id_distributor.increment()
             self.id_dict[feature_tuple] = chr_id + ".%d" % feature_id
-        else:
-            feature_id =  self.id_dict[feature_tuple]
 
-        return feature_id
+        return self.id_dict[feature_tuple]
 
 
 class AtomicIDDistributor(object):
